@@ -120,6 +120,7 @@ pub fn main_entry() {
         std::process::exit(EXIT_MACHINERY);
     };
     let prop: &dyn Prop = prop.as_ref();
+    crate::memdrive::install_inline_spawner();
 
     // Quiet panic output from explored code: panics are caught and turned into verdicts.
     if std::env::var_os("VERIF_PANIC_TRACE").is_none() {
@@ -349,7 +350,9 @@ impl Prop for Composite {
             }
             // Each part gets its share of the wall budget (plus what earlier parts left over).
             let part_deadline = start + total / n * (i as u32 + 1);
+            par::set_part(Some(i));
             let mut r = p.worker(tier, shard, part_deadline.min(deadline));
+            par::set_part(None);
             for v in r.violations.iter_mut() {
                 v.witness["part"] = serde_json::json!(i);
             }
